@@ -57,6 +57,8 @@ pub fn run(tier: &str, seed: u64, out: &str) {
         hs.push(std::thread::spawn(move || {
             let mut msk = cosmian_cover_crypt::MasterSecretKey::deserialize(&mskb).unwrap();
             let mpk = MasterPublicKey::deserialize(&mpkb).unwrap();
+            // a copy of the master key that is never rotated: it can always re-open encapsulations made under `mpk`
+            let msk0 = cosmian_cover_crypt::MasterSecretKey::deserialize(&mskb).unwrap();
             let pol_c = AccessPolicy::parse("D::A && S::L || D::A").unwrap();
             let pol_h = AccessPolicy::parse("S::T").unwrap();
             let mut local = Seen::default();
@@ -76,6 +78,23 @@ pub fn run(tier: &str, seed: u64, out: &str) {
                     }
                 }
                 local.add("shared secret", &ss[..]);
+                if i % 8 == 1 {
+                    // re-encapsulation must be as fresh as an encapsulation: new seed, hence new traps, tag, masked seeds
+                    if let Ok((ss2, x2)) = cc.recaps(&msk0, &mpk, &x) {
+                        let w2 = WEnc::read(&x2.serialize().unwrap()).unwrap();
+                        local.add("encapsulation tag", &w2.tag);
+                        for c in &w2.c {
+                            local.add("trap", c);
+                        }
+                        for (e, f) in &w2.encs {
+                            local.add("masked seed F", f);
+                            if !e.is_empty() {
+                                local.add("ML-KEM ciphertext", e);
+                            }
+                        }
+                        local.add("shared secret", &ss2[..]);
+                    }
+                }
                 if i % 4 == 0 {
                     let (_, ctx) = PkeAc::<{ Aes256Gcm::KEY_LENGTH }, Aes256Gcm>::encrypt(&*cc, &mpk, &pol_c, b"same plaintext").unwrap();
                     local.add("PKE nonce", &ctx[..12]);
@@ -131,7 +150,7 @@ pub fn run(tier: &str, seed: u64, out: &str) {
         "soft_kind_mismatch": 0, "matrix_cells": 0, "matrix_open": 0,
         "samples": [{"iterations": per * threads, "threads": threads, "instances": 2, "categories": g.counts.keys().collect::<Vec<_>>()}],
         "mismatches": [],
-        "extra": {"rule": format!("{} iterations of identical calls (encaps for a classic and a hybridised policy, PKE encryption of the same plaintext, header generation with the same metadata, key generation, rekey of one right) on {} threads over 2 instances; tags, traps, masked seeds, ML-KEM ciphertexts, shared secrets, AEAD nonces, header secrets, user ids and markers, published public values are extracted from the serialised outputs and must be pairwise distinct within and across threads and instances; statistical support only (birthday bound 2^-64 for the 96-bit nonces at 10^6 draws is negligible); distinct = distinct extracted values", per * threads, threads),
+        "extra": {"rule": format!("{} iterations of identical calls (encaps for a classic and a hybridised policy, re-encapsulation of the result, PKE encryption of the same plaintext, header generation with the same metadata, key generation, rekey of one right) on {} threads over 2 instances; tags, traps, masked seeds, ML-KEM ciphertexts, shared secrets, AEAD nonces, header secrets, user ids and markers, published public values are extracted from the serialised outputs and must be pairwise distinct within and across threads and instances; statistical support only (birthday bound 2^-64 for the 96-bit nonces at 10^6 draws is negligible); distinct = distinct extracted values", per * threads, threads),
             "exhaustive": false, "per_line": true, "oracle_failures": fails, "oracle_checked": values, "campaign": "C16", "wall_s": t0.elapsed().as_secs_f64()},
     });
     std::fs::write(out, serde_json::to_string_pretty(&j).unwrap()).unwrap();
